@@ -29,8 +29,22 @@ func (t *loopTr) expr(e ast.Expr) (string, lkind) {
 	case *ast.Ident:
 		return t.ident(x)
 	case *ast.SelectorExpr:
+		// e.Offset for an e bound by errors.As
+		if id, ok := unparen(x.X).(*ast.Ident); ok {
+			if src := t.asBound[t.objOf(id)]; src != nil {
+				if fv, isF := t.info.Uses[x.Sel].(*types.Var); isF && fv.IsField() && t.kindOf(fv.Type(), x) == kInt {
+					if t.errOpt {
+						return "(Go.errOff " + t.vars[src] + ")", kInt
+					}
+					return "(Go.errOffAt " + t.vars[src] + ")", kInt
+				}
+			}
+		}
 		if v, ok := t.info.Uses[x.Sel].(*types.Var); ok && !v.IsField() && v.Pkg() != nil && v.Pkg() != t.set.tp.tpkg &&
 			types.Identical(v.Type(), types.Universe.Lookup("error").Type()) {
+			if t.errOpt {
+				return "(some (" + leanString(t.importedErrVar(x, v)) + ", none))", kErrOpt
+			}
 			if t.errAt {
 				t.fail(x, "an imported error variable in a function that also builds &T{ErrX, off} errors is not supported")
 			}
@@ -111,6 +125,13 @@ func (t *loopTr) expr(e ast.Expr) (string, lkind) {
 		return "([" + strings.Join(parts, ", ") + "] : " + k.lean() + ")", k
 	case *ast.CallExpr:
 		return t.call(x)
+	case *ast.SliceExpr:
+		// strings are immutable: a substring is a value (slices of slices stay restricted to arguments)
+		if btv, ok := t.info.Types[x.X]; ok {
+			if b, ok := btv.Type.Underlying().(*types.Basic); ok && b.Kind() == types.String {
+				return t.argValue(x)
+			}
+		}
 	}
 	t.fail(e, "unsupported expression %s (%T)", t.p.src(e), e)
 	return "", 0
@@ -144,6 +165,9 @@ func (t *loopTr) listIdent(x *ast.Ident) (string, lkind) {
 	if v.Parent() == t.set.tp.tpkg.Scope() {
 		if k == kErr {
 			return t.set.errVar(t, v, x), k
+		}
+		if k == kErrOpt {
+			return "(some (" + leanString(t.set.errVarName(t, v, x)) + ", none))", k
 		}
 		if k == kErrAt {
 			t.fail(x, "the error variable %s as a value in a function that also builds &T{ErrX, off} errors is not supported", x.Name)
@@ -249,8 +273,41 @@ func (t *loopTr) binop(at ast.Node, op token.Token, a string, ak lkind, b string
 			return "(" + le + " " + b + " " + a + ")", kBool
 		}
 	}
-	if ak == kErr || ak == kErrAt {
-		t.fail(at, "comparison of errors is not supported")
+	if ak == kString {
+		switch op {
+		case token.EQL:
+			return "(" + a + " == " + b + ")", kBool
+		case token.NEQ:
+			return "(" + a + " != " + b + ")", kBool
+		}
+	}
+	if isErrKind(ak) {
+		// err != nil / err == nil (comparison of two error values is not supported)
+		be, isBin := at.(*ast.BinaryExpr)
+		if isBin && (op == token.NEQ || op == token.EQL) {
+			isNil := func(e ast.Expr) bool {
+				id, ok := unparen(e).(*ast.Ident)
+				if !ok {
+					return false
+				}
+				_, n := t.info.Uses[id].(*types.Nil)
+				return n
+			}
+			val := ""
+			switch {
+			case isNil(be.Y):
+				val = a
+			case isNil(be.X):
+				val = b
+			}
+			if val != "" {
+				if op == token.NEQ {
+					return "(" + val + ").isSome", kBool
+				}
+				return "(" + val + ").isNone", kBool
+			}
+		}
+		t.fail(at, "comparison of errors is not supported (only err != nil / err == nil)")
 	}
 	t.fail(at, "unsupported operator %s on %s", op, ak.lean())
 	return "", 0
@@ -364,11 +421,18 @@ func (t *loopTr) call(x *ast.CallExpr) (string, lkind) {
 			t.checkCapArgs(x, csig)
 		}
 		parts := []string{o.Name()}
+		if csig := loopSigs[sigKey(o.Pkg().Path(), o.Name())]; csig != nil {
+			parts = append(parts, t.depArgs(csig)...)
+		}
 		for _, a := range x.Args {
 			s, _ := t.argValue(a)
 			parts = append(parts, s)
 		}
-		return "(" + strings.Join(parts, " ") + ")", t.kindOf(sig.Results().At(0).Type(), x)
+		rk := t.kindOf(sig.Results().At(0).Type(), x)
+		if csig := loopSigs[sigKey(o.Pkg().Path(), o.Name())]; csig != nil && len(csig.rets) == 1 && isErrKind(rk) {
+			rk = csig.rets[0] // the callee's own error carrier
+		}
+		return "(" + strings.Join(parts, " ") + ")", rk
 	}
 	t.fail(x, "unsupported call %s", t.p.src(x))
 	return "", 0
@@ -388,6 +452,16 @@ func (t *loopTr) convert(at ast.Node, s string, from, to lkind) string {
 		return "(BitVec.signExtend 64 " + s + ")" // sign extension
 	case (from == kInt || from == kUint) && (to == kByte || to == kInt8):
 		return "(BitVec.setWidth 8 " + s + ")" // truncation
+	case from == kRune && (to == kInt || to == kUint):
+		return "(BitVec.signExtend 64 " + s + ")"
+	case (from == kInt || from == kUint) && to == kRune:
+		return "(BitVec.setWidth 32 " + s + ")"
+	case from == kRune && (to == kByte || to == kInt8):
+		return "(BitVec.setWidth 8 " + s + ")"
+	case from == kByte && to == kRune:
+		return "(BitVec.setWidth 32 " + s + ")"
+	case from == kInt8 && to == kRune:
+		return "(BitVec.signExtend 32 " + s + ")"
 	}
 	t.fail(at, "unsupported conversion %s -> %s", from.lean(), to.lean())
 	return ""
@@ -488,6 +562,21 @@ func (t *loopTr) libCall(x *ast.CallExpr, sel *ast.SelectorExpr) (string, lkind)
 	if !ok || f.Pkg() == nil {
 		t.fail(x, "unsupported call %s", t.p.src(x))
 	}
+	if ex, ok := externFns[f.Pkg().Path()+"."+f.Name()]; ok {
+		if len(x.Args) != len(ex.args) || x.Ellipsis.IsValid() {
+			t.fail(x, "arity")
+		}
+		parts := []string{ex.param}
+		for i, a := range x.Args {
+			s, k := t.argValue(a)
+			if k != ex.args[i] && !(ex.args[i] == kString && k == kBytes) {
+				t.fail(a, "argument of type %s", k.lean())
+			}
+			parts = append(parts, s)
+		}
+		t.absDeps[ex.param] = ex.ty
+		return "(" + strings.Join(parts, " ") + ")", ex.ret
+	}
 	switch f.Pkg().Path() + "." + f.Name() {
 	case "math/bits.TrailingZeros":
 		if len(x.Args) != 1 {
@@ -499,7 +588,7 @@ func (t *loopTr) libCall(x *ast.CallExpr, sel *ast.SelectorExpr) (string, lkind)
 		}
 		return "(Go.trailingZeros64 " + s + ")", kInt
 	case "fmt.Errorf":
-		if t.errAt {
+		if t.errAt && !t.errOpt {
 			t.fail(x, "fmt.Errorf in a function that also builds &T{ErrX, off} errors is not supported")
 		}
 		// fmt.Errorf("…%w…", …, ErrX, …): an error that wraps the package variable ErrX; the text is not modelled,
@@ -524,11 +613,20 @@ func (t *loopTr) libCall(x *ast.CallExpr, sel *ast.SelectorExpr) (string, lkind)
 				if res != "" {
 					t.fail(x, "fmt.Errorf with more than one %%w")
 				}
-				s, k := t.expr(x.Args[arg])
-				if _, isId := unparen(x.Args[arg]).(*ast.Ident); k != kErr || !isId {
+				wid, isId := unparen(x.Args[arg]).(*ast.Ident)
+				wv, isVar := (*types.Var)(nil), false
+				if isId {
+					wv, isVar = t.info.Uses[wid].(*types.Var)
+				}
+				if !isId || !isVar || wv.Parent() != t.set.tp.tpkg.Scope() || !isErrKind(t.kindOf(wv.Type(), x)) {
 					t.fail(x, "fmt.Errorf: the operand of %%w must be a package-level error variable")
 				}
-				res = s
+				wname := leanString(t.set.errVarName(t, wv, x))
+				if t.errOpt {
+					res = "(some (" + wname + ", none))"
+				} else {
+					res = "(some " + wname + ")"
+				}
 			} else {
 				t.argValue(x.Args[arg])
 			}
@@ -537,7 +635,7 @@ func (t *loopTr) libCall(x *ast.CallExpr, sel *ast.SelectorExpr) (string, lkind)
 		if res == "" || arg != len(x.Args) {
 			t.fail(x, "fmt.Errorf: exactly one %%w and as many verbs as arguments are required")
 		}
-		return res, kErr
+		return res, t.errKind()
 	}
 	t.fail(x, "unsupported call %s", t.p.src(x))
 	return "", 0
